@@ -265,7 +265,7 @@ pub fn gen_damaged(rng: &mut StdRng, tab: &[OpDesc]) -> (String, &'static str) {
     let n = rng.random_range(1..10);
     let (mut toks, _) = gen_toks(rng, tab, n, 3, 0, 0.25, 0.15, true);
     let bins: Vec<&str> = tab.iter().filter(|o| o.bin).map(|o| o.name).collect();
-    let kind = *["paren_deleted", "paren_inserted", "bin_appended", "extra_operand", "illegal_char", "none"].choose(rng).unwrap();
+    let kind = *["paren_deleted", "paren_inserted", "bin_appended", "extra_operand", "illegal_char", "sci_literal", "none"].choose(rng).unwrap();
     match kind {
         "paren_deleted" => {
             let ps: Vec<usize> = toks.iter().enumerate().filter(|(_, t)| matches!(t, Tok::Open | Tok::Close)).map(|(i, _)| i).collect();
@@ -288,6 +288,17 @@ pub fn gen_damaged(rng: &mut StdRng, tab: &[OpDesc]) -> (String, &'static str) {
         _ => {}
     }
     let mut text = to_text(rng, &toks, 1.0);
+    if kind == "sci_literal" {
+        // a literal in the float grammar of Rust's FromStr but not in the number syntax of exmex (number followed by a
+        // variable): alone (with blanks around it) or in place of the whole left / right operand of a binary operator
+        let lit = *["1e5", "2E3", "1e+5", "2.5e-3", "7e0", ".5e1", "1e-2", "3E+0", "4e1", "1.0e1"].choose(rng).unwrap();
+        let pad = |rng: &mut StdRng| " ".repeat(rng.random_range(0..3));
+        text = match rng.random_range(0..4) {
+            0 | 1 => format!("{}{}{}", pad(rng), lit, pad(rng)),
+            2 => format!("{} {} ({})", lit, bins.choose(rng).unwrap(), text),
+            _ => format!("({}) {} {}", text, bins.choose(rng).unwrap(), lit),
+        };
+    }
     if kind == "illegal_char" {
         // outside braces: a braced name may contain anything
         let cs: Vec<char> = text.chars().collect();
@@ -320,7 +331,16 @@ pub fn gen_nested(rng: &mut StdRng, depth: usize) -> (Vec<OpDesc>, String) {
     let mut pre = String::new();
     let mut post = String::new();
     for _ in 0..depth {
-        match rng.random_range(0..3) {
+        match rng.random_range(0..5) {
+            // call form of a binary operator, the rest nested in its second / in its first argument
+            3 if !bins.is_empty() => {
+                pre.push_str(&format!("{}({}, ", bins.choose(rng).unwrap(), gen_lit(rng)));
+                post.insert(0, ')');
+            }
+            4 if !bins.is_empty() => {
+                pre.push_str(&format!("{} (", bins.choose(rng).unwrap()));
+                post.insert_str(0, ", v1)");
+            }
             0 if !uns.is_empty() => {
                 pre.push_str(uns.choose(rng).unwrap());
                 pre.push_str(" (");
@@ -361,6 +381,21 @@ pub fn gen_chain(rng: &mut StdRng, n_operands: usize, pattern: u8) -> (Vec<OpDes
             x * levels / nops.max(1)
         })
         .collect();
+    // pattern 6 "plateau": long left-to-right runs of one priority (whole tracker words are consumed by one run), a few
+    // operators of higher priority inside them (applied first) and a few of lower priority (applied last, to the right and
+    // to the left of the runs)
+    let lvl: Vec<usize> = if pattern == 6 && levels >= 6 {
+        // the special operators stay out of the middle tracker words (operands 62..128), so that one run consumes a whole word
+        let right = 128.min(nops.saturating_sub(2));
+        let allowed: Vec<usize> = (0..nops).filter(|p| *p < 62 || *p >= right).collect();
+        let mut l = vec![1usize; nops];
+        for _ in 0..rng.random_range(1..=3) { l[*allowed.choose(rng).unwrap()] = rng.random_range(2..6); }
+        for _ in 0..rng.random_range(0..=2) { l[*allowed.choose(rng).unwrap()] = 0; }
+        l[rng.random_range(right..nops)] = 0;      // at least one operator right of the run is applied after it
+        l
+    } else {
+        lvl
+    };
     let mut s = String::new();
     for i in 0..n_operands {
         if i > 0 {
@@ -674,8 +709,8 @@ pub fn main(args: &[String]) -> i32 {
                 let max_chain = o.num("max-chain", 300) as usize;
                 let sizes: Vec<usize> = [9usize, 17, 31, 32, 33, 63, 64, 65, 66, 127, 128, 129, 130, 191, 192, 193, 194, 249, 250]
                     .into_iter().filter(|s| *s <= max_chain).collect();
-                let n_ops = sizes[(i as usize) % sizes.len()];
-                let pat = (((i as usize) / sizes.len() + stream as usize) % 6) as u8;
+                let n_ops = sizes[(i as usize + 7 * stream as usize) % sizes.len()];
+                let pat = (((i as usize) / sizes.len() + stream as usize) % 7) as u8;
                 let (t, s) = gen_chain(&mut rng, n_ops, pat);
                 (t, s, format!("chain{n_ops}-{pat}"))
             }
